@@ -77,8 +77,10 @@ class Process:
     """modules[0] is the main program. bases: list of load bases (0 for ET_EXEC)."""
     UNRESOLVED = 0xdead00000000beef
 
-    def __init__(self, paths, bases, machine="x86_64"):
+    def __init__(self, paths, bases, machine="x86_64", builtins=None):
         self.machine = machine
+        # symbols provided by the run-time system itself (ld.so: __tls_get_addr), name -> address
+        self.builtins = dict(builtins or {})
         self.mods = [Module(p, b) for p, b in zip(paths, bases)]
         for m in self.mods:
             if m.elf.e_type == 2 and m.base != 0:
@@ -282,6 +284,11 @@ class Process:
                     else:
                         target = self.lookup(s["name"], plt_class=(t == "JUMP_SLOT"), copy_class=(t == "COPY"))
                     if target is None:
+                        if s["name"] in self.builtins:
+                            v = self.builtins[s["name"]]
+                            self.write(a, struct.pack("<Q", v))
+                            self.applied.append((mi, a, t, v))
+                            continue
                         if s["bind"] != 2:
                             raise LoaderError(f"undefined symbol {s['name']} (relocation {t} in {m.name})")
                     else:
